@@ -54,9 +54,9 @@ CHECKS = {
              'TLC enumerates every on/off/absent assignment of the eleven related flags x every -O level (3^11 x 4 = 708588 cases; quick: a 1/6 stride picked by the seed) '
              'and all 3^5 x 4 optimisation-flag cases, checks on each case: implied flags on, exclusive never both, explicit conflict is an error, explicit beats level, '
              'levels cumulative, independence of the order of distinct flags; the real load_commandline_flags is run on the same command lines (canonical, reversed, shuffled; '
-             'mixed spellings) and must yield exactly the configuration or error the specification prescribes. Malformed/unknown options must be diagnosed.',
+             'mixed spellings) and must yield exactly the configuration or error the specification prescribes. Malformed/unknown options must be diagnosed. NmfuArgv.tla gives the meaning of the whole command line token by token (every option of --help in short and long form with good and bad values, positional input, derived and explicit output name, dump kinds and prefix, dry run, help/version, generation options); TLC enumerates every command line of three argv strings over a 42-string alphabet and of four over a 22-string one and the real function must produce the prescribed outcome class and configuration.',
         note='Exhaustive over the related flags in the thorough tier; argument order is covered by reversal, rotation, all permutations of up to four flags (in TLC) and shuffles (conformance).',
-        technique='TLA+ transcription of flag resolution, TLC exhaustive enumeration + bidirectional conformance', thorough=True),
+        technique='TLA+ specification of flag resolution and of the token-level command line, TLC exhaustive enumeration + conformance of the real function on every enumerated command line', thorough=True),
     'C01': dict(
         category='model_checking', design_ref='6/C01',
         text='Conform.tla: TLC explores the product of the machine exported from the real compiler (at -O0..-O3) and NmfuLang, an independent TLA+ reading of the '
